@@ -50,12 +50,16 @@ func HarnessC10Map() {
 		zz.Assume(zzIdentByte(c))
 	}
 	mapFirst := zz.Bool()
+	jn := ""
+	if zz.Bool() {
+		jn = " [json_name = \"zz\"]" // a custom JSON name on the map field
+	}
 	var src []byte
 	src = append(src, "syntax = \"proto2\";\nmessage M {\n"...)
 	if mapFirst {
 		src = append(src, "  map<string, string> "...)
 		src = append(src, n2...)
-		src = append(src, " = 1;\n  repeated int32 "...)
+		src = append(src, " = 1"+jn+";\n  repeated int32 "...)
 		src = append(src, n1...)
 		src = append(src, " = 2;\n}\n"...)
 	} else {
@@ -63,7 +67,7 @@ func HarnessC10Map() {
 		src = append(src, n1...)
 		src = append(src, " = 1;\n  map<string, string> "...)
 		src = append(src, n2...)
-		src = append(src, " = 2;\n}\n"...)
+		src = append(src, " = 2"+jn+";\n}\n"...)
 	}
 	h := reporter.NewHandler(nil)
 	ast, err := parser.Parse("m.proto", bytes.NewReader(src), h)
